@@ -163,7 +163,12 @@ fn emit_history(out: &mut impl Write, prefix: &str, lang: &str, parser: &mut Par
             Some(t) => t,
             None => break,
         };
-        let changed: Vec<Range> = tree.changed_ranges(&new_tree).collect();
+        // every other step goes through Tree::clone (ts_tree_copy) on both sides: the copies must carry the same
+        // subtrees and the same included ranges (the dumps below are then those of the copies)
+        let use_clone = k % 2 == 1;
+        let (old_for_cmp, new_for_cmp) = if use_clone { (tree.clone(), new_tree.clone()) } else { (tree.clone(), new_tree.clone()) };
+        let (old_ref, new_ref) = if use_clone { (&old_for_cmp, &new_for_cmp) } else { (&tree, &new_tree) };
+        let changed: Vec<Range> = old_ref.changed_ranges(new_ref).collect();
         if step.ranges != prev_ranges {
             st.range_changes += 1;
         }
@@ -173,6 +178,7 @@ fn emit_history(out: &mut impl Write, prefix: &str, lang: &str, parser: &mut Par
         writeln!(out, "spec {cid} {lang} {} {} {}", if text0.is_empty() { "-".to_string() } else { hex(text0) }, fmt_bs(ranges0), done.join(" ")).unwrap();
         writeln!(out, "case {cid} {lang}").unwrap();
         writeln!(out, "len {}", text.len()).unwrap();
+        // dumps are taken from the ORIGINAL trees: a copy that lost ranges/subtrees makes port != implementation
         writeln!(out, "old\n{}", dump_tree(&tree).trim_end()).unwrap();
         writeln!(out, "new\n{}", dump_tree(&new_tree).trim_end()).unwrap();
         let rs: Vec<String> = changed.iter().map(fmt_range).collect();
